@@ -15,6 +15,17 @@ ENTRY = {
         "AGV.C20.template_var_names_valid",
         "AGV.C20.anb_iff",
         "AGV.C20.isMatched_no_overflow",
+        "AGV.C20.isMatchedI64_exact",
+        "AGV.C20.isMatchedI64_exact'",
+        "AGV.C20.isMatchedI64_bound_example",
+        "AGV.C20.anb_iff_i64",
+        "AGV.C20.isMatchedChecked_eq",
+        "AGV.C20.parseAnBChecked_spec",
+        "AGV.C20.parseAnBChecked_ok_iff",
+        "AGV.C20.parseAnBChecked_error",
+        "AGV.C20.parseAnBChecked_no_overflow",
+        "AGV.C20.parseAnBChecked_in_i32",
+        "AGV.C20.parsed_position_exact",
         "AGV.C20.substring_python",
     ],
     "units": ["metavar", "anb", "substring", "template_scan", "c20_oracle"],
@@ -27,7 +38,7 @@ ENTRY = {
     ],
 }
 MANIFEST = {
-    "text": "Lean theorems over the executable model, for unbounded inputs: An+B index test = exists n>=0 with i+1 = A*n+B (anb_iff, every A and B, truncating division), i32 computation agrees when |A|,|B|,i < 2^30 (isMatched_no_overflow), substring = Python slice on characters (substring_python), meta-variable spelling recogniser = the documented spellings (extract_spec) and uniform across every expando that is not itself a name character (uniform_across_languages, with the `_`-expando languages C/C++/CSS recorded as a counter-example = known finding), template scanner: literal text stays literal, every capturing spelling is recognised (template_literal, template_first_var). The model is tied to the code by exhaustive enumeration of short strings through the real functions of all 23 languages plus seeded random longer inputs, replayed on the Lean driver; the expando table is regenerated from the code and re-checked by `decide`.",
+    "text": "Lean theorems over the executable model, for unbounded inputs: An+B index test = exists n>=0 with i+1 = A*n+B (anb_iff, every A and B, truncating division), the i64 computation of the current code (after fix 401a0cd) is exact for every i32 A, B and every index below 2^63 - 2^31 - 1 (isMatchedI64_exact, anb_iff_i64; isMatchedI64_bound_example shows the bound is sharp), the repaired parser is the pinned one with overflow reported as InvalidSyntax and accepted coefficients fit i32 (parseAnBChecked_spec / _ok_iff / _in_i32, parsed_position_exact); for the pinned i32 computation: agreement when |A|,|B|,i < 2^30 (isMatched_no_overflow), substring = Python slice on characters (substring_python), meta-variable spelling recogniser = the documented spellings (extract_spec) and uniform across every expando that is not itself a name character (uniform_across_languages, with the `_`-expando languages C/C++/CSS recorded as a counter-example = known finding), template scanner: literal text stays literal, every capturing spelling is recognised (template_literal, template_first_var). The model is tied to the code by exhaustive enumeration of short strings through the real functions of all 23 languages plus seeded random longer inputs, replayed on the Lean driver; the expando table is regenerated from the code and re-checked by `decide`.",
     "note": "Trusted: Lean kernel + 3 standard axioms; the harness/driver/check.py glue; tree-sitter parsing of pattern text is not part of this property's model. Modelled-not-verified functions are listed in evidence.trusted_base.",
     "technique": "Lean 4 proof over hand-written executable model + differential correspondence (exhaustive short strings, seeded random) + generated expando table checked by `decide`",
 }
